@@ -147,7 +147,8 @@ struct E {
     set: u8, // bitmask over alphabet a,b,c
 }
 fn matches(e: &E, l: u8) -> bool {
-    e.set & (1 << l) != 0
+    // line kinds: 0,1,2 = "a","b","c"; 3 = the empty line (matched by no one-character class)
+    l < 3 && e.set & (1 << l) != 0
 }
 fn acc(es: &[E], ls: &[u8], i: usize, used: bool, j: usize) -> bool {
     if i >= es.len() {
@@ -262,7 +263,7 @@ fn run_diff_case(maker: &ExpectationMaker, es: &[E], ls: &[u8], final_newline: b
     let mut out = vec![];
     let mut lines: Vec<Vec<u8>> = vec![];
     for (k, l) in ls.iter().enumerate() {
-        let mut line = vec![b'a' + *l];
+        let mut line = if *l < 3 { vec![b'a' + *l] } else { vec![] };
         if k + 1 < ls.len() || final_newline {
             line.push(b'\n');
         }
@@ -318,7 +319,7 @@ fn cmd_diff(props: &str, max_exp: usize, max_lines: usize) -> (u64, Vec<String>)
     for _ in 0..max_lines {
         let mut next = vec![];
         for l in &fr {
-            for c in 0..3u8 {
+            for c in 0..4u8 {
                 let mut x = l.clone();
                 x.push(c);
                 next.push(x);
@@ -331,7 +332,7 @@ fn cmd_diff(props: &str, max_exp: usize, max_lines: usize) -> (u64, Vec<String>)
     for es in &exp_lists {
         for ls in &outs {
             for fin in [true, false] {
-                if ls.is_empty() && !fin {
+                if (ls.is_empty() || *ls.last().unwrap() == 3) && !fin {
                     continue;
                 }
                 n += 1;
